@@ -56,6 +56,11 @@ def build(repo):
 """)
     idx = re.findall(r"self\.(defs_ex|defs_ex_ex|regexes)\[([^\]]+)\]\.remove\(([^)]+)\)", tail)
     idx2 = re.findall(r"self\.regex_sets\[([^\]]+)\]\s*=\s*RegexSet::new\(&self\.defs_ex_ex\[([^\]]+)\]\)", tail)
+    if not idx2:
+        # R18: `X.last_mut().unwrap()` / `X.last().unwrap()` index the last chunk: X[X.len() - 1]
+        m2 = re.search(r"\*self\.regex_sets\.last_mut\(\)\.unwrap\(\)\s*=\s*RegexSet::new\(\s*&?self\.defs_ex_ex\.last\(\)\.unwrap\(\)\s*\)", tail)
+        if m2:
+            idx2 = [("self.defs_ex.len() - 1", "self.defs_ex.len() - 1")]
     if len(idx) != 3 or len(idx2) != 1:
         raise Undecided("undefine(): expected three `self.<table>[k].remove(i)` statements and one regex_set rebuild, found %d / %d" % (len(idx), len(idx2)))
     checks = []
@@ -78,7 +83,9 @@ impl Context {
         (k, i)
     }
     // the index expressions used on the parallel tables, verbatim from the statements after the loops
-    pub fn undefine_indices(&self, k: usize, i: usize) {
+    pub fn undefine_indices(&self, k: usize, i: usize)
+        requires k < self.defs_ex@.len(),
+    {
 %s
     }
 }
